@@ -386,3 +386,8 @@ mod tests {
         assert_eq!(ids.value(2), 3);
     }
 }
+
+// Verification hook (/verif): contract proof harnesses; compiled only by `cargo kani`.
+#[cfg(kani)]
+#[path = "/verif/kani/sort.rs"]
+mod verif_kani;
